@@ -32,6 +32,7 @@ type CEnv struct {
 	pkg   *types.Package
 	bound map[string]CVal
 	tparams map[string]types.Type
+	panicking string // value of panicking() in this environment
 }
 
 func typeParamsOf(fn *ssa.Function) map[string]types.Type {
@@ -93,7 +94,7 @@ func (fv *FnV) bindResults(env *CEnv, sig *types.Signature, fn *ssa.Function, re
 
 // calleeEnv: environment of a callee's contract at a call site.
 func (fv *FnV) calleeEnv(st, old *State, callee *ssa.Function, args []*SV, clo *ssa.MakeClosure, res *SV) *CEnv {
-	env := &CEnv{fv: fv, st: st, old: old, vars: map[string]CVal{}, bound: map[string]CVal{}, tparams: typeParamsOf(callee)}
+	env := &CEnv{fv: fv, st: st, old: old, vars: map[string]CVal{}, bound: map[string]CVal{}, tparams: typeParamsOf(callee), panicking: "false"}
 	if callee.Pkg != nil {
 		env.pkg = callee.Pkg.Pkg
 	} else if o := callee.Origin(); o != nil {
@@ -326,6 +327,17 @@ func (e *CEnv) ev(x ast.Expr) CVal {
 			}
 			return CVal{T: "(fp.neg " + v.T + ")", S: v.S, Typ: v.Typ}
 		case token.AND:
+			// address of a local variable
+			if id, ok := x.X.(*ast.Ident); ok {
+				for _, d := range e.fv.localNames[id.Name] {
+					if al, ok := d.X.(*ssa.Alloc); ok && d.IsAddr {
+						if sv, done := e.fv.vals[al]; done {
+							return CVal{T: sv.ptr.ref, S: sRef, Typ: al.Type()}
+						}
+					}
+				}
+				cfail("address of %s: not an addressable local", id.Name)
+			}
 			// address-of: only &x.f of struct-typed fields (sub addresses)
 			if se, ok := x.X.(*ast.SelectorExpr); ok {
 				base := e.ev(se.X)
@@ -890,6 +902,63 @@ func (e *CEnv) call(x *ast.CallExpr) CVal {
 			sortS, _ = strconv.Unquote(l2.Value)
 		}
 		return CVal{T: s, S: sortS}
+	case "panicking":
+		if e.panicking != "" {
+			return CVal{T: e.panicking, S: sBool, Typ: boolT}
+		}
+		return CVal{T: e.fv.panickingTerm(), S: sBool, Typ: boolT}
+	case "callresult":
+		// callresult(Callee, i): the i-th result of the unique call of Callee in this function
+		id, ok := x.Args[0].(*ast.Ident)
+		lit, ok2 := x.Args[1].(*ast.BasicLit)
+		if !ok || !ok2 {
+			cfail("callresult(Callee, i)")
+		}
+		idx, _ := strconv.Atoi(lit.Value)
+		var found *ssa.Call
+		n := 0
+		for _, b := range e.fv.fn.Blocks {
+			for _, ins := range b.Instrs {
+				if c, ok := ins.(*ssa.Call); ok {
+					if sc := c.Common().StaticCallee(); sc != nil && sc.Name() == id.Name {
+						found = c
+						n++
+					}
+				}
+			}
+		}
+		if n != 1 {
+			cfail("callresult: %d calls of %s", n, id.Name)
+		}
+		sv, done := e.fv.vals[found]
+		if !done {
+			cfail("callresult: the call of %s has not been executed on this path", id.Name)
+		}
+		r := sv
+		if len(sv.tup) > 0 {
+			if idx >= len(sv.tup) {
+				cfail("callresult: index")
+			}
+			r = &sv.tup[idx]
+		}
+		return CVal{T: e.fv.term(r), S: e.g().sortOf(r.typ), Typ: r.typ}
+	case "called":
+		// called(Callee): the unique call of Callee was executed on this path
+		id, ok := x.Args[0].(*ast.Ident)
+		if !ok {
+			cfail("called(Callee)")
+		}
+		for _, ec := range e.fv.errCalls {
+			if shortCallee(ec.callee) == id.Name {
+				if hit, ok := e.st.heap[fmt.Sprintf("X|%d", ec.id)]; ok {
+					return CVal{T: hit, S: sBool, Typ: boolT}
+				}
+			}
+		}
+		return CVal{T: "false", S: sBool, Typ: boolT}
+	case "min":
+		a, b := e.unify(arg(0), arg(1))
+		return CVal{T: ite("(bvsle "+a.T+" "+b.T+")", a.T, b.T), S: a.S, Typ: a.Typ}
 	case "feq":
 		return CVal{T: "(fp.eq " + arg(0).T + " " + arg(1).T + ")", S: sBool, Typ: boolT}
 	case "isnan":
@@ -911,10 +980,16 @@ func (e *CEnv) call(x *ast.CallExpr) CVal {
 		if v.lit != nil {
 			return e.coerce(v, ts, t)
 		}
-		sv := &SV{v: Val{v.T, v.S}, typ: v.Typ}
 		if v.Typ == nil {
 			cfail("conversion of untyped value")
 		}
+		if ts == sAny {
+			if v.S == sAny {
+				return CVal{T: v.T, S: sAny, Typ: t}
+			}
+			return CVal{T: g.box(e.fv.c, v.T, v.Typ), S: sAny, Typ: t}
+		}
+		sv := &SV{v: Val{v.T, v.S}, typ: v.Typ}
 		out := e.fv.convert(e.st, sv, v.Typ, t)
 		return CVal{T: out.v.T, S: ts, Typ: t}
 	}
